@@ -380,6 +380,19 @@ func driveC09(args []string) error {
 			ev.Got = rec.Calls[0].Pal
 		}
 		emit(ev)
+		// the same stream decoded with an option that overrides ONE entry: every other entry is still exactly the
+		// suggested one (the option machinery has no business touching them)
+		if npal%2 == 0 {
+			at := (npal * 7) % 64
+			oc := color.RGBA{uint8(npal), 0x40, 0x10, 0xff}
+			var rec2 Recorder
+			ev2 := colEv{Ev: "palopt", Path: id + "/WithColorAt", Pal: palJ(p), B: bytesJ(b), Adj: at, C: []int{0, int(oc.R), int(oc.G), int(oc.B), int(oc.A)}}
+			if err := decode.Decode(&rec2, b, decode.WithColorAt(at, oc)); err == nil && len(rec2.Calls) == 1 {
+				ev2.OK = 1
+				ev2.Got = rec2.Calls[0].Pal
+			}
+			emit(ev2)
+		}
 		return nil
 	}
 	black := color.RGBA{0, 0, 0, 255}
